@@ -603,10 +603,13 @@ func renumber(ops []porcupine.Operation) []porcupine.Operation {
 }
 
 // runConcHistory executes one concurrent history: actors + senders, phase aligned, then an epilogue.
+// singleKey restricts the id space to one (type, pipeline id), so that all registrations contend.
+var singleKey bool
+
 func runConcHistory(run *rt.Run, cr *rt.Rand, nactors, nsenders, nops, denyPct int, noRmPN bool, overwriteOnly bool) (*concWorld, []string) {
 	b, _ := eventlogger.NewBroker()
 	w := &concWorld{b: b, h: &concHist{marks: map[string][]*marker{}}, types: []string{"t0", "t1"}, pids: []string{"p0", "p1", "p2"}, noRmPN: noRmPN}
-	if overwriteOnly {
+	if overwriteOnly || singleKey {
 		w.types, w.pids = []string{"t0"}, []string{"p0"}
 	}
 	for _, id := range sharedIDs {
